@@ -252,6 +252,7 @@ def rosParamsP : P (RosParams Float) := do
   let a ← flts nt; let c ← flts nt; let m ← flts stages; let e ← flts stages
   let gamma0 ← flt
   let newF ← many stages boolT
+  let _ ← many (6 - stages) boolT      -- entries of the std::array<bool, 6> beyond `stages` (never read)
   let order ← flt
   let roundOff ← flt; let fmin ← flt; let fmax ← flt; let rejDec ← flt; let safety ← flt
   let hmin ← flt; let hmax ← flt; let hstart ← flt
